@@ -83,6 +83,8 @@ def check_parse(fn: ast.FunctionDef, where: str, max_subs: int = 3) -> tuple[int
 def check_skeleton(source: str, where: str, max_subs: int = 3) -> tuple[int, list[str]]:
     tree = ast.parse(source)
     assigned = {t.id for n in ast.walk(tree) if isinstance(n, (ast.Assign, ast.AnnAssign, ast.For)) for t in ast.walk(n.targets[0] if isinstance(n, ast.Assign) else n.target) if isinstance(t, ast.Name)}
+    assigned |= {t.id for n in ast.walk(tree) if isinstance(n, ast.comprehension) for t in ast.walk(n.target) if isinstance(t, ast.Name)}
+    assigned |= {n.target.id for n in ast.walk(tree) if isinstance(n, ast.NamedExpr)}
     in_ann = {id(x) for n in ast.walk(tree) if isinstance(n, ast.AnnAssign) for x in ast.walk(n.annotation)}
     free = sorted({n.id for n in ast.walk(tree) if isinstance(n, ast.Name) and isinstance(n.ctx, ast.Load) and id(n) not in in_ann} - assigned - {"state", "len", "None", "True", "False", "min", "max"})
     if len(free) != 1:
